@@ -185,6 +185,8 @@ type Case struct {
 	Given ValMap   `json:"given,omitempty"`
 	Rx    bool     `json:"rx"`
 	Omit  bool     `json:"omit"`
+	// C04, family req2: how each of the two required arguments is given (lit | null | omit | unset)
+	St map[string]string `json:"st,omitempty"`
 	// C05
 	Gv *Val `json:"gv,omitempty"`
 	// expectations (C04: outcome record, C05: tree)
